@@ -69,7 +69,8 @@ VARIABLES sc,         \* the scenario (constant along a behaviour)
 vars == <<sc, pc, n, outs, cancelled, recs, final, last>>
 view == <<sc, pc, n, outs, cancelled, recs, final>>
 
-Pow(b, e) == IF e = 0 THEN 1 ELSE IF e = 1 THEN b ELSE IF e = 2 THEN b * b ELSE b * b * b
+RECURSIVE Pow(_, _)
+Pow(b, e) == IF e <= 0 THEN 1 ELSE b * Pow(b, e - 1)
 
 (* the retry policy wraps the call only for buffered requests *)
 Wrapped == sc.retry /\ ~sc.stream
@@ -80,12 +81,17 @@ KindOf(i) == IF i <= Len(sc.script) THEN sc.script[i] ELSE sc.script[Len(sc.scri
 
 (* "waits at least the configured (randomised, optionally exponentially growing) back-off":      *)
 (*  w >= base * 1.5^(i-1) * (1 - f)   after attempt i    (integers: multiply out)                 *)
+(* (base * (100 - f) is a multiple of 100 in every scenario family - base 4 with f in {0, 25, 50}, *)
+(*  recorded bases in microseconds - so the division is exact; w is never multiplied: long retry  *)
+(*  chains, max up to 10, stay inside TLC's 32-bit integers)                                      *)
 WaitedEnough(i, w) ==
     LET e == IF sc.exp THEN i - 1 ELSE 0
-    IN  w * 100 * Pow(2, e) >= sc.base * (100 - sc.f) * Pow(3, e)
+        b == (sc.base * (100 - sc.f)) \div 100
+        x == b * Pow(3, e)
+    IN  w >= (x + Pow(2, e) - 1) \div Pow(2, e)
 
 WellFormed(s) ==
-    /\ s.max \in 1..3 /\ Len(s.script) >= 1
+    /\ s.max \in 1..10 /\ Len(s.script) >= 1
     /\ \A i \in 1..Len(s.script) : s.script[i] \in Kinds /\ (s.script[i] = "hang" => s.tmo)
     /\ s.cdl \in {"none", "later", "earlier"}
     /\ (\E i \in 1..Len(s.script) : s.script[i] = "cdl") => s.cdl = "earlier"
